@@ -33,18 +33,31 @@ def run(model: Model, rep: Report, tier: str) -> None:
         "not decided beyond them."
     )
     rep.trusted_base = ["networkx all_simple_paths on an undirected graph is symmetric in its endpoints", "more_itertools.triplewise", "C14 R14.2 for disorient()"]
-    rep.floors = {"R20.1": 6, "R20.2": 2, "R20.3": 1, "R20.4": 2}
-    sa = SetAlg()
+    rep.floors = {"R20.1": 8, "R20.2": 4, "R20.3": 1, "R20.4": 2}
+    from ..refcmp import compare_with_reference, load_reference, private_callees, run_table
+    from .common import graph_rewrite, rewriter
+
+    load_reference(model, "yvref.c20", "c20_ref.py")
+    sa = SetAlg(rewriter(graph_rewrite))
     V = ("cls", VARIABLE)
+    G = ("cls", NXMG)
+    SG = ("dict", None, None)
+    ZS = ("set", V)
+    PUB = {f"{SS}.{x}" for x in ("is_collider", "is_non_collider_left_chain", "is_non_collider_right_chain", "is_non_collider_fork", "is_z_sigma_open",
+                                 "get_equivalence_classes", "are_sigma_separated")}
+
+    def mk(model_, prims):
+        return lambda: Evaluator(model_, primitives=set(GRAPH_PRIMS) | set(prims))
 
     def evaluate(name, swapped=False):
+        # private edge helpers are inlined: the atoms are graph.directed.has_edge / graph.undirected.has_edge themselves
         f = model.func(f"{SS}.{name}")
-        ev = Evaluator(model, primitives=set(GRAPH_PRIMS) | PRIMS)
+        ev = Evaluator(model, primitives=set(GRAPH_PRIMS))
         L, R = typed(ev, "left", V), typed(ev, "right", V)
-        args = {"graph": typed(ev, "graph", ("cls", NXMG)), "left": R if swapped else L, "middle": typed(ev, "middle", V), "right": L if swapped else R,
-                "conditions": typed(ev, "conditions", ("set", V))}
+        args = {"graph": typed(ev, "graph", G), "left": R if swapped else L, "middle": typed(ev, "middle", V), "right": L if swapped else R,
+                "conditions": typed(ev, "conditions", ZS)}
         if "sigma" in f.params:
-            args["sigma"] = typed(ev, "sigma", ("dict", None, None))
+            args["sigma"] = typed(ev, "sigma", SG)
         rets = return_paths(ev.run(f, args))
         fm = f_or(*[f_and(*[sa.cond(c) for c in r.conds], sa.cond(r.value) if r.value[0] != "const" else (r.value[1] is True)) for r in rets])
         args = dict(args, left=L, right=R)
@@ -63,77 +76,61 @@ def run(model: Model, rep: Report, tier: str) -> None:
     mirror_check("self-mirror", "is_collider", fc, Fc)
     mirror_check("mirror-of-right-chain", "is_non_collider_left_chain", fl, Fr)
     mirror_check("self-mirror", "is_non_collider_fork", ff, Ff)
-    # published formulas
-    g, l, m, r, Z, sg = ac["graph"], ac["left"], ac["middle"], ac["right"], ac["conditions"], al["sigma"]
-    either = lambda u, v: sa.cond(("call", f"{SS}._has_either_edge", (), (("graph", g), ("u", u), ("v", v))))  # noqa: E731
-    only = lambda u, v: sa.cond(("call", f"{SS}._only_directed_edge", (), (("graph", g), ("u", u), ("v", v))))  # noqa: E731
-    mZ = sa.cond(("in", m, Z))
-    sig = lambda x: sa.cond(("in", m, ("index", sg, x)))  # noqa: E731
-    pub = {
-        "collider": (fc, Fc, f_and(either(l, m), either(r, m), mZ), "a collider (arrowheads from both sides at m) is open iff m is conditioned on"),
-        "left-chain": (fl, Fl, f_and(only(m, l), either(r, m), f_or(f_not(mZ), f_and(mZ, sig(l)))), "m -> left with an arrowhead from the right is open iff m ∉ Z, or m ∈ Z and m lies in the strongly connected component of the node it points to"),
-        "right-chain": (fr, Fr, f_and(either(l, m), only(m, r), f_or(f_not(mZ), f_and(mZ, sig(r)))), "mirror image of the left chain"),
-        "fork": (ff, Ff, f_and(only(m, l), only(m, r), f_or(f_not(mZ), f_and(mZ, sig(l), sig(r)))), "a fork is open iff m ∉ Z, or m ∈ Z and m lies in the components of both nodes it points to"),
-    }
-    for name, (f, F, want, words) in pub.items():
-        eq, row, _ = compare(F, want)
-        (rep.proven if eq else rep.refuted)("R20.1", construct(f, f"published:{name}"), "" if eq else
-                                            f"{words}; the implementation differs when [{short(show_row(row), 260)}] (on an acyclic graph every component is a singleton, so this changes the d-separation verdict)", loc(f))
-    # triple helper = disjunction of the four
-    f = model.func(f"{SS}._triple_helper")
-    ev = Evaluator(model, primitives={f"{SS}.is_collider", f"{SS}.is_non_collider_left_chain", f"{SS}.is_non_collider_right_chain", f"{SS}.is_non_collider_fork"})
-    rets = return_paths(ev.run(f, {}))
-    names = {s[1].split(".")[-1] for rr in rets for s in subterms((rr.value, rr.conds)) if s[0] == "call" and isinstance(s[1], str) and s[1].startswith(SS)}
-    ok = names == {"is_collider", "is_non_collider_left_chain", "is_non_collider_right_chain", "is_non_collider_fork"}
-    (rep.proven if ok else rep.refuted)("R20.1", construct(f, "four-cases"), "" if ok else f"a triple is open iff it is one of the four published forms; uses {sorted(names)}", loc(f))
-    # ---------------------------------------------------------------- R20.2
-    f = model.func(f"{SS}.is_z_sigma_open")
-    ev = Evaluator(model, primitives={f"{SS}._triple_has_correct_form"})
-    path = typed(ev, "path", ("list", V))
-    Zs = typed(ev, "conditions", ("set", V))
-    rets = return_paths(ev.run(f, {"graph": typed(ev, "graph", ("cls", NXMG)), "path": path, "sigma": var("sigma"), "conditions": Zs}))
-    problems = []
-    falses = [x for x in rets if x.value == const(False)]
-    quant = [x for x in rets if x.value[0] in ("all", "any")]
-    endpoint = f_or(sa.cond(("in", ("index", path, const(0)), Zs)), sa.cond(("in", ("index", path, const(-1)), Zs)))
-    if not falses or not compare(f_or(*[f_and(*[sa.cond(c) for c in x.conds]) for x in falses]), endpoint)[0]:
-        problems.append("a path with a conditioned endpoint must be closed (and only the endpoints decide that)")
-    if len(quant) != 1 or quant[0].value[0] != "all":
-        problems.append("a path is open only if EVERY consecutive triple is open")
-    else:
-        c = quant[0].value[1]
-        it = c[3][0][1]
-        if not (it[0] == "call" and it[1].endswith("triplewise") and it[2] == (path,)) or c[3][0][2]:
-            problems.append("triples are not all consecutive triples of the path (a two-node path has none, so adjacent nodes outside Z are never separated)")
-    (rep.refuted if problems else rep.proven)("R20.2", construct(f, "path-open"), "; ".join(problems), loc(f))
-    f = model.func(f"{SS}.are_sigma_separated")
-    ev = Evaluator(model, primitives=set(GRAPH_PRIMS) | {f"{SS}.is_z_sigma_open", f"{SS}.get_equivalence_classes"})
-    g2 = typed(ev, "graph", ("cls", NXMG))
-    a2, b2 = typed(ev, "left", V), typed(ev, "right", V)
-    rets = return_paths(ev.run(f, {"graph": g2, "left": a2, "right": b2, "conditions": typed(ev, "conditions", ("iter", V)), "cutoff": var("cutoff")}))
-    problems = []
-    fam = None
-    for x in rets:
-        v = x.value
-        if not (v[0] == "not" and v[1][0] == "any"):
-            problems.append("two nodes are separated iff NO path between them is open")
-            continue
-        c = v[1][1]
-        it = c[3][0][1]
-        if not (it[0] == "call" and it[1].endswith("all_simple_paths")):
-            problems.append("paths are not enumerated by all_simple_paths")
+    # published formulas (reference comparison; the definitions are written over the graph's own edge tests)
+    T4 = {"graph": G, "left": V, "middle": V, "right": V, "conditions": ZS}
+    T5 = dict(T4, sigma=SG)
+    table = [
+        ("R20.1", f"{SS}.is_collider", "collider", T4, (), "published:collider", "a collider (arrowheads from both sides at m) is open iff m is conditioned on"),
+        ("R20.1", f"{SS}.is_non_collider_left_chain", "left_chain", T5, (), "published:left-chain",
+         "m -> left with an arrowhead from the right is open iff m ∉ Z, or m ∈ Z and m lies in the strongly connected component of the node it points to"),
+        ("R20.1", f"{SS}.is_non_collider_right_chain", "right_chain", T5, (), "published:right-chain", "mirror image of the left chain"),
+        ("R20.1", f"{SS}.is_non_collider_fork", "fork", T5, (), "published:fork",
+         "a fork is open iff m ∉ Z, or m ∈ Z and m lies in the components of both nodes it points to"),
+        ("R20.2", f"{SS}.are_sigma_separated", "separated", {"graph": G, "left": V, "right": V, "conditions": ("union", (("iter", V), "none"))},
+         PUB - {f"{SS}.are_sigma_separated"}, "no-open-path",
+         "two nodes are separated iff NO simple path between them in the flat undirected graph of both edge families (disorient()) is open"),
+        ("R20.2", f"{SS}.get_equivalence_classes", "strongly_connected_classes", {"graph": G}, (), "sigma-classes", "σ(v) = An(v) ∩ De(v) for every node"),
+    ]
+    run_table(model, rep, table, "yvref.c20", mk, sa, construct=construct, loc=loc)
+    # path predicate and its per-triple helpers: the helpers are private (their names are free), so they are found by their place in the call
+    # graph -- the routine is_z_sigma_open applies to each triple, and the routine THAT one applies to a single triple
+    fz = model.func(f"{SS}.is_z_sigma_open")
+    per_triple = private_callees(model, fz, PUB)
+    TZ = {"graph": G, "path": ("list", V), "sigma": SG, "conditions": ("union", (ZS, "none"))}
+    T6 = {"graph": G, "left": V, "middle": V, "right": V, "conditions": ZS, "sigma": SG}
+    if len(per_triple) == 1:
+        h1 = model.func(per_triple[0])
+        four = private_callees(model, h1, PUB)
+        alias1 = {"yvref.c20.passable": h1.qname}
+        _, v, d, smp = compare_with_reference(model, fz.qname, "yvref.c20.path_open", TZ, mk(model, PUB | {h1.qname, "yvref.c20.passable"}), sa, alias=alias1)
+        _verdict(rep, "R20.2", construct(fz, "path-open"), v, "a path is open iff no endpoint is conditioned and EVERY consecutive triple is passable: " + d, loc(fz), smp)
+        if len(four) == 1:
+            h2 = model.func(four[0])
+            _, v, d, smp = compare_with_reference(model, h1.qname, "yvref.c20.passable", T6, mk(model, PUB | {h2.qname, "yvref.c20.triple_open"}), sa,
+                                                  alias={"yvref.c20.triple_open": h2.qname})
+            _verdict(rep, "R20.2", construct(fz, "triple-passable"), v, "a triple is passable iff it is open, or open after one step to a neighbour of the middle node and back: " + d, loc(h1), smp)
+            _, v, d, smp = compare_with_reference(model, h2.qname, "yvref.c20.triple_open", T6, mk(model, PUB), sa)
+            _verdict(rep, "R20.1", construct(fz, "four-cases"), v, "a triple is open iff it is one of the four published forms: " + d, loc(h2), smp)
         else:
-            fam = it[1].split(".")[-1]
-            if it[2][0] != ("meth", g2, "disorient", (), ()):
-                problems.append("paths are not enumerated on the flat undirected graph of both edge families (disorient())")
-            if {it[2][1], it[2][2]} != {a2, b2}:
-                problems.append("paths are not enumerated between the two query nodes")
-        if c[3][0][2]:
-            problems.append("some paths are skipped")
-    (rep.refuted if problems else rep.proven)("R20.2", construct(f, "no-open-path"), "; ".join(sorted(set(problems))), loc(f))
+            _, v, d, smp = compare_with_reference(model, h1.qname, "yvref.c20.passable", T6, mk(model, PUB), sa)
+            _verdict(rep, "R20.2", construct(fz, "triple-passable"), v, "a triple is passable iff it is open, or open after one step to a neighbour of the middle node and back: " + d, loc(h1), smp)
+            rep.proven("R20.1", construct(fz, "four-cases"), loc=loc(h1)) if v == "PROVEN" else rep.unknown("R20.1", construct(fz, "four-cases"), "decided together with triple-passable", loc(h1))
+    else:
+        _, v, d, smp = compare_with_reference(model, fz.qname, "yvref.c20.path_open", TZ, mk(model, PUB - {fz.qname}), sa)
+        _verdict(rep, "R20.2", construct(fz, "path-open"), v, "a path is open iff no endpoint is conditioned and EVERY consecutive triple is passable: " + d, loc(fz), smp)
+        for role, rule in (("triple-passable", "R20.2"), ("four-cases", "R20.1")):
+            rep.proven(rule, construct(fz, role), loc=loc(fz)) if v == "PROVEN" else rep.unknown(rule, construct(fz, role), "decided together with path-open (helpers inlined)", loc(fz))
+    # path family used by the separation test
+    fs = model.func(f"{SS}.are_sigma_separated")
+    ev = Evaluator(model, primitives=set(GRAPH_PRIMS) | (PUB - {fs.qname}))
+    rets = return_paths(ev.run(fs, {"graph": typed(ev, "graph", G), "left": typed(ev, "left", V), "right": typed(ev, "right", V),
+                                    "conditions": typed(ev, "conditions", ("iter", V)), "cutoff": var("cutoff")}))
+    fams = {s_[1].split(".")[-1] for x in rets for s_ in subterms((x.value, x.conds)) if s_[0] == "call" and isinstance(s_[1], str) and "paths" in s_[1].split(".")[-1]}
+    fam = next(iter(fams)) if len(fams) == 1 else None
+    # does the collider rule consult Z itself (the published per-triple rule)?  -- the same comparison as R20.1#published:collider
+    consults_raw = compare_with_reference(model, f"{SS}.is_collider", "yvref.c20.collider", T4, mk(model, ()), sa)[1] == "PROVEN"
     # ---------------------------------------------------------------- R20.3
     # which set does the collider rule consult?
-    consults_raw = compare(Fc, pub["collider"][2])[0]
     cons = construct(fc, "collider-vs-path-family")
     if fam == "all_simple_paths" and consults_raw:
         rep.refuted("R20.3", cons, "paths are enumerated as SIMPLE paths but a collider is opened only when it is itself in Z: over simple paths the rule must be 'collider ∈ An(Z)' "
@@ -159,5 +156,10 @@ def run(model: Model, rep: Report, tier: str) -> None:
             rep.proven("R20.4", construct(f, "stateless"), loc=loc(f))
 
 
-def _uncanon(t: Term) -> Term:
-    return t
+def _verdict(rep: Report, rule: str, cons: str, verdict: str, detail: str, where: str, sample: dict) -> None:
+    if verdict == "PROVEN":
+        rep.proven(rule, cons, loc=where, sample=sample)
+    elif verdict == "REFUTED":
+        rep.refuted(rule, cons, "deviates from the definition (" + (detail if len(detail) <= 900 else detail[:899] + "…") + ")", where, sample=sample)
+    else:
+        rep.unknown(rule, cons, detail, where)
